@@ -72,6 +72,11 @@ func run(spec Scenario) outcome {
 
 	sc.tl = tasklane.New(sc.ctx, spec.LaneSize, spec.QueueSize)
 	sc.tl.SetTimeout(time.Duration(spec.TimeoutMs) * time.Millisecond)
+	if spec.TimeoutUs > 0 {
+		sc.tl.SetTimeout(time.Duration(spec.TimeoutUs) * time.Microsecond)
+	} else if spec.TimeoutUs < 0 {
+		sc.tl.SetTimeout(0)
+	}
 	maxPending := spec.LaneSize * (spec.QueueSize + 1)
 
 	// pollers (C14): Status() from other goroutines, all the time
